@@ -136,6 +136,38 @@ fn print_family(dir: &Path, nfiles: usize) -> Vec<PathBuf> {
     entries
 }
 
+/// A printed family of .proto files: several nested messages per message (two
+/// levels), nested enums, maps, oneofs, cross-file imports, shared package prefixes.
+fn print_pfamily(dir: &Path, nfiles: usize) -> Vec<PathBuf> {
+    std::fs::create_dir_all(dir).unwrap();
+    let mut entries = vec![];
+    for i in 0..nfiles {
+        let mut s = String::from("syntax = \"proto3\";\n");
+        s.push_str(&format!("package pfam.p{}.q{};\n", i % 2, i));
+        for j in 0..i {
+            s.push_str(&format!("import \"pfam{}.proto\";\n", j));
+        }
+        for m in 0..3 {
+            s.push_str(&format!("message Outer{}x{} {{\n", i, m));
+            for n in ["Alpha", "beta_msg", "Gamma", "DELTA", "epsilon"] {
+                s.push_str(&format!("  message {} {{\n    int32 a = 1;\n    message Inner1 {{ string s = 1; }}\n    message Inner2 {{ bytes b = 1; }}\n    message inner_3 {{ int64 c = 1; }}\n    Inner1 i1 = 2;\n    Inner2 i2 = 3;\n    inner_3 i3 = 4;\n    enum E {{ E_ZERO = 0; E_ONE = 1; }}\n    E e = 5;\n  }}\n", n));
+            }
+            s.push_str("  enum Kind { KIND_A = 0; KIND_B = 1; }\n");
+            s.push_str("  Alpha a = 1;\n  beta_msg b = 2;\n  Gamma c = 3;\n  DELTA d = 4;\n  epsilon e = 5;\n  map<string, Alpha> m1 = 6;\n  map<int32, Gamma> m2 = 7;\n  Kind k = 8;\n");
+            s.push_str("  oneof pick { string s = 9; Alpha oa = 10; int64 n = 11; }\n");
+            if i > 0 {
+                s.push_str(&format!("  pfam.p{}.q{}.Outer{}x0 prev = 12;\n", (i - 1) % 2, i - 1, i - 1));
+            }
+            s.push_str("}\n");
+        }
+        s.push_str(&format!("service PSvc{} {{\n  rpc Call(Outer{}x0) returns (Outer{}x1);\n  rpc Other(Outer{}x2) returns (Outer{}x0);\n}}\n", i, i, i, i, i));
+        let p = dir.join(format!("pfam{}.proto", i));
+        std::fs::write(&p, s).unwrap();
+        entries.push(p);
+    }
+    entries
+}
+
 fn corpora(scratch: &Path, tier_thorough: bool) -> Vec<Corpus> {
     let td = PathBuf::from("/repo/pilota-build/test_data");
     let mut v = vec![];
@@ -177,6 +209,9 @@ fn corpora(scratch: &Path, tier_thorough: bool) -> Vec<Corpus> {
     let n = if tier_thorough { 9 } else { 6 };
     let fam = print_family(&fam_dir, n);
     v.push(Corpus { name: "family_all_entries".into(), source: "thrift", include: Some(fam_dir.clone()), entries: fam.clone(), modes: vec!["single", "split", "workspace", "workspace_split"] });
+    let pfam_dir = scratch.join("pfamily");
+    let pfam = print_pfamily(&pfam_dir, if tier_thorough { 4 } else { 3 });
+    v.push(Corpus { name: "pfamily_all_entries".into(), source: "protobuf", include: Some(pfam_dir), entries: pfam, modes: vec!["single", "split"] });
     v.push(Corpus { name: "family_last_entry".into(), source: "thrift", include: Some(fam_dir), entries: vec![fam.last().unwrap().clone()], modes: vec!["single", "workspace"] });
     v
 }
@@ -412,6 +447,8 @@ fn run(args: &[String]) {
     let mut digests: BTreeSet<u64> = BTreeSet::new();
     let mut samples: Vec<Value> = vec![];
     let mut counters: BTreeMap<String, u64> = BTreeMap::new();
+    let mut to_confirm: Vec<RunCfg> = vec![];
+    let mut to_confirm_count: BTreeMap<String, usize> = BTreeMap::new();
     for (i, (cfg, out)) in jobs.iter().zip(results.iter()).enumerate() {
         let c = &cs[cfg.corpus];
         *counters.entry(format!("mode.{}", cfg.mode)).or_insert(0) += 1;
@@ -442,35 +479,43 @@ fn run(args: &[String]) {
         }
         let reference = &canon[&(cfg.corpus, cfg.mode, cfg.real_rustfmt)];
         if let Some(d) = diff_trees(reference, &tree) {
-            let mut confirmed = cfg.real_rustfmt;
-            let mut detail = d.clone();
-            if !cfg.real_rustfmt {
+            *counters.entry("raw_mismatches".into()).or_insert(0) += 1;
+            if cfg.real_rustfmt {
+                violations.push(json!({"run": cfg_json(c, cfg), "detail": d, "entries": c.entries.iter().map(|p| p.to_string_lossy().to_string()).collect::<Vec<_>>()}));
+            } else {
                 // unformatted text is stricter than the property: confirm with the real rustfmt
-                let mut c2 = cfg.clone();
-                c2.real_rustfmt = true;
-                let dir = scratch.join(format!("confirm{}", i));
-                let o2 = exec_run(c, &c2, &dir, &shim);
-                if o2.ok {
-                    let t2 = read_tree(&o2.dir);
-                    if let Some(d2) = diff_trees(&canon[&(cfg.corpus, cfg.mode, true)], &t2) {
-                        confirmed = true;
-                        detail = d2;
-                    } else {
-                        *counters.entry("raw_difference_normalised_away_by_rustfmt".into()).or_insert(0) += 1;
-                    }
+                // (at most three candidates per (corpus, mode); violations are reported per pair)
+                let k = format!("{}|{}", c.name, cfg.mode);
+                let e = to_confirm_count.entry(k).or_insert(0usize);
+                if *e < 3 {
+                    *e += 1;
+                    let mut c2 = cfg.clone();
+                    c2.real_rustfmt = true;
+                    to_confirm.push(c2);
                 }
-                let _ = std::fs::remove_dir_all(&dir);
-            }
-            if confirmed {
-                let mut c2 = cfg.clone();
-                c2.real_rustfmt = true;
-                violations.push(json!({"run": cfg_json(c, &c2), "detail": detail, "entries": c.entries.iter().map(|p| p.to_string_lossy().to_string()).collect::<Vec<_>>()}));
             }
         }
         let _ = std::fs::remove_dir_all(out.dir.parent().unwrap());
     }
+    // confirmation runs, in parallel
+    if !to_confirm.is_empty() {
+        let res = run_parallel(&cs, &to_confirm, &scratch, &shim, "confirm");
+        for (cfg, out) in to_confirm.iter().zip(res.iter()) {
+            let c = &cs[cfg.corpus];
+            if !out.ok {
+                eprintln!("harness error: confirmation run failed: {}\n{}", cfg_json(c, cfg), out.stderr);
+                std::process::exit(2);
+            }
+            let t2 = read_tree(&out.dir);
+            match diff_trees(&canon[&(cfg.corpus, cfg.mode, true)], &t2) {
+                Some(d2) => violations.push(json!({"run": cfg_json(c, cfg), "detail": d2, "entries": c.entries.iter().map(|p| p.to_string_lossy().to_string()).collect::<Vec<_>>()})),
+                None => *counters.entry("raw_difference_normalised_away_by_rustfmt".into()).or_insert(0) += 1,
+            }
+            let _ = std::fs::remove_dir_all(out.dir.parent().unwrap());
+        }
+    }
     let wall = t0.elapsed().as_secs_f64();
-    let evaluations = jobs.len() as u64;
+    let evaluations = (jobs.len() + to_confirm.len()) as u64;
 
     // known findings
     let known = load_known(&verif_dir);
@@ -531,7 +576,7 @@ fn run(args: &[String]) {
     let mut seen = BTreeSet::new();
     for v in unknown.iter() {
         let key = format!("{}|{}", v["run"]["corpus"], v["run"]["mode"]);
-        if !seen.insert(key) || seen.len() > 4 {
+        if !seen.insert(key) || seen.len() > 2 {
             continue;
         }
         let min = minimise_c17(v, &cs, &verif_dir, &shim);
@@ -646,7 +691,7 @@ fn minimise_c17(v: &Value, cs: &[Corpus], verif_dir: &str, shim: &Path) -> Value
     }
     // drop entry files one at a time
     let mut i = 0;
-    while c.entries.len() > 1 && i < c.entries.len() && n < 24 {
+    while c.entries.len() > 1 && i < c.entries.len() && n < 10 {
         let mut t = c.clone();
         t.entries.remove(i);
         n += 1;
@@ -683,6 +728,13 @@ fn replay(args: &[String]) -> i32 {
         if let Some(first) = entries.first() {
             if let Some(dir) = first.parent() {
                 print_family(dir, 9);
+            }
+        }
+    }
+    if run["corpus"].as_str().map(|c| c.starts_with("pfamily")).unwrap_or(false) {
+        if let Some(first) = entries.first() {
+            if let Some(dir) = first.parent() {
+                print_pfamily(dir, 4);
             }
         }
     }
